@@ -7,6 +7,7 @@ import array
 import collections
 import functools
 import hashlib
+import os
 import pickle
 import sys
 import time
@@ -448,11 +449,14 @@ class DiskCache(_CacheBase):
     def put(self, key: Hashable, value: Any) -> None:
         """Insert a key value pair into the cache."""
         file_path = self._get_file_path(key)
-        with file_path.open("wb") as f:
+        # Write to a temporary file first: a concurrent reader must never see a partially written entry
+        tmp_path = file_path.with_name(f"{file_path.name}.{os.getpid()}.tmp")
+        with tmp_path.open("wb") as f:
             if self.use_cloudpickle:
                 cloudpickle.dump(value, f)
             else:
                 pickle.dump(value, f)
+        os.replace(tmp_path, file_path)
         if self.with_lru_cache:
             self.lru_cache.put(key, value)
         self._evict_if_needed()
